@@ -1,6 +1,326 @@
-//! C15 — not built yet.
+//! C15 — every database unit is found by each of its names and survives both codecs.
+//!
+//! labels / inputs
+//!   count  -            number of distinct units reachable through `UNITS` and number of keys
+//!   unit   H(name)      EXHAUSTIVE on every run, one case per unit: every id through `get_unit` (must return
+//!                       that very unit), `Number{x, unit}` for the magnitudes below through Zinc
+//!                       (`to_zinc_string` / `from_str`, alone and inside a list) and through serde_json
+//!                       (`to_string` / `from_str`)
+//!   nonid  H(text)      a string that is no id of any unit: `get_unit` must return None
+//!   lex    HEX(text)    a number text: how `parse_number` splits it (correspondence with the model's lexer)
+//! Correspondence requests: `C15 get H(s)`, `C15 lex HEX`, `C15 count`.
+
 use crate::ctx::{CaseOut, Ctx};
+use crate::gen;
+use crate::rng::Rng;
+use crate::vx;
+use libhaystack::encoding::zinc::decode::from_str as zinc_from_str;
+use libhaystack::encoding::zinc::encode::ToZinc;
+use libhaystack::units::units_generated::UNITS;
+use libhaystack::units::{get_unit, Unit};
+use libhaystack::val::*;
 
-pub fn exec(_label: &str, _input: &str, _out: &mut CaseOut) {}
+const MAGNITUDES: [f64; 8] = [0.0, -1.5, 1e-7, 1e21, 123.456, -0.0, 1e300, 5e-324];
 
-pub fn generate(_ctx: &mut Ctx) {}
+/// the distinct unit statics reachable through the map (by address), ordered by name
+fn all_units() -> &'static Vec<&'static Unit> {
+    use std::sync::OnceLock;
+    static CELL: OnceLock<Vec<&'static Unit>> = OnceLock::new();
+    CELL.get_or_init(|| {
+        let mut v: Vec<&'static Unit> = Vec::new();
+        for u in UNITS.values() {
+            if !v.iter().any(|x| std::ptr::eq(*x, *u)) {
+                v.push(*u);
+            }
+        }
+        v.sort_by(|a, b| a.name().cmp(b.name()));
+        v
+    })
+}
+
+fn is_some_id(s: &str) -> bool {
+    all_units().iter().any(|u| u.ids.iter().any(|i| i == s))
+}
+
+fn show_unit(u: &Unit) -> String {
+    let dims = match &u.dimensions {
+        None => "-".to_string(),
+        Some(d) => format!("{},{},{},{},{},{},{}", d.kg, d.m, d.sec, d.k, d.a, d.mol, d.cd),
+    };
+    format!(
+        "{} {} {} {} {} {} S n {} - O n {} -",
+        vx::h(u.name()),
+        vx::h(u.symbol()),
+        u.ids.len(),
+        u.ids.iter().map(|i| vx::h(i)).collect::<Vec<_>>().join(" "),
+        vx::ho(&u.quantity),
+        dims,
+        vx::flt(u.scale),
+        vx::flt(u.offset)
+    )
+}
+
+fn get_req(s: &str, out: &mut CaseOut) -> Option<&'static Unit> {
+    let got = get_unit(s);
+    out.req(
+        format!("C15 get {}", vx::h(s)),
+        match got {
+            None => "none".into(),
+            Some(u) => format!("ok {}", show_unit(u)),
+        },
+    );
+    got
+}
+
+/// `C15 lex HEX(text)`: implementation side = what `from_str` makes of the text
+fn lex_req(text: &[u8], out: &mut CaseOut) {
+    let reply = match std::str::from_utf8(text) {
+        Err(_) => return, // from_str takes a &str
+        Ok(t) => match zinc_from_str(t) {
+            Ok(Value::Number(n)) => format!(
+                "ok n {} {}",
+                vx::flt(n.value),
+                match n.unit {
+                    None => "-".to_string(),
+                    Some(u) => vx::h(u.symbol()),
+                }
+            ),
+            Ok(_) => "other".into(),
+            Err(_) => "err".into(),
+        },
+    };
+    out.req(format!("C15 lex {}", vx::hex(text)), reply);
+}
+
+fn check_number_back(what: &str, x: f64, u: &'static Unit, back: Result<Value, String>, text: &str, out: &mut CaseOut) {
+    match back {
+        Ok(Value::Number(n)) => {
+            match n.unit {
+                Some(b) if std::ptr::eq(b, u) => {}
+                other => out.fail(
+                    &format!("{what}_unit_lost"),
+                    format!("{x:?} {} written as {text:?} came back with unit {:?}", u.symbol(), other.map(|b| b.symbol())),
+                ),
+            }
+            if n.value.to_bits() != x.to_bits() {
+                out.fail(
+                    &format!("{what}_value_changed"),
+                    format!("{x:?} {} written as {text:?} came back as {:?}", u.symbol(), n.value),
+                );
+            }
+        }
+        Ok(v) => out.fail(&format!("{what}_unit_lost"), format!("{x:?} {} written as {text:?} came back as {v:?}", u.symbol())),
+        Err(e) => out.fail(&format!("{what}_unreadable"), format!("{x:?} {} written as {text:?} is rejected: {e}", u.symbol())),
+    }
+}
+
+fn exec_unit(input: &str, out: &mut CaseOut) {
+    let name = match vx::unh(input.trim()) {
+        Some(s) => s,
+        None => return out.fail("harness", "unparsable C15 unit input".into()),
+    };
+    let u: &'static Unit = match all_units().iter().find(|u| u.name() == name) {
+        Some(u) => u,
+        None => return out.fail("harness", format!("no unit named {name:?} is reachable through UNITS")),
+    };
+    out.nontrivial = true;
+    out.stat(&format!("unit:ids={}", u.ids.len()));
+    if u.symbol().chars().any(|c| !c.is_ascii()) {
+        out.stat("unit:non_ascii_symbol");
+    }
+    // every id resolves to this very unit
+    for id in u.ids.iter() {
+        match get_req(id, out) {
+            Some(got) if std::ptr::eq(got, u) => {}
+            Some(got) => out.fail("id_resolves_elsewhere", format!("get_unit({id:?}) returns the unit named {:?}, not {name:?}", got.name())),
+            None => out.fail("id_not_found", format!("get_unit({id:?}) is None although {id:?} is an id of {name:?}")),
+        }
+    }
+    // both codecs, every magnitude
+    for x in MAGNITUDES {
+        let v = Value::Number(Number { value: x, unit: Some(u) });
+        match v.to_zinc_string() {
+            Ok(z) => {
+                check_number_back("zinc", x, u, zinc_from_str(&z).map_err(|e| e.to_string()), &z, out);
+                lex_req(z.as_bytes(), out);
+                // inside a list: the symbol is followed by `,` / `]`
+                let l = Value::List(vec![v.clone(), v.clone()]);
+                if let Ok(zl) = l.to_zinc_string() {
+                    match zinc_from_str(&zl) {
+                        Ok(Value::List(items)) if items.len() == 2 => {
+                            for it in items {
+                                check_number_back("zinc_list", x, u, Ok(it), &zl, out);
+                            }
+                        }
+                        other => out.fail("zinc_list_unreadable", format!("{zl:?} came back as {other:?}")),
+                    }
+                }
+            }
+            Err(e) => out.fail("zinc_unwritable", format!("{x:?} {}: {e}", u.symbol())),
+        }
+        match serde_json::to_string(&v) {
+            Ok(j) => check_number_back("json", x, u, serde_json::from_str::<Value>(&j).map_err(|e| e.to_string()), &j, out),
+            Err(e) => out.fail("json_unwritable", format!("{x:?} {}: {e}", u.symbol())),
+        }
+    }
+}
+
+fn exec_nonid(input: &str, out: &mut CaseOut) {
+    let s = match vx::unh(input.trim()) {
+        Some(s) => s,
+        None => return out.fail("harness", "unparsable C15 nonid input".into()),
+    };
+    out.nontrivial = true;
+    let got = get_req(&s, out);
+    if is_some_id(&s) {
+        out.stat("nonid:is_an_id_after_all");
+        if got.is_none() {
+            out.fail("id_not_found", format!("get_unit({s:?}) is None although it is an id"));
+        }
+    } else {
+        out.stat("nonid:not_an_id");
+        if let Some(u) = got {
+            out.fail("nonid_found", format!("get_unit({s:?}) returns {:?} although no unit has this id", u.name()));
+        }
+    }
+}
+
+fn exec_lex(input: &str, out: &mut CaseOut) {
+    let bytes = match vx::unhex(input.trim()) {
+        Some(b) => b,
+        None => return out.fail("harness", "unparsable C15 lex input".into()),
+    };
+    out.nontrivial = true;
+    lex_req(&bytes, out);
+}
+
+pub fn exec(label: &str, input: &str, out: &mut CaseOut) {
+    match label.split(':').next().unwrap_or(label) {
+        "count" => {
+            out.nontrivial = true;
+            out.req("C15 count".into(), format!("ok {} {}", all_units().len(), UNITS.len()));
+        }
+        "unit" => exec_unit(input, out),
+        "nonid" => exec_nonid(input, out),
+        "lex" => exec_lex(input, out),
+        _ => out.fail("harness", format!("unknown C15 label {label}")),
+    }
+}
+
+// ---------------------------------------------------------------------------------------------
+// generation
+// ---------------------------------------------------------------------------------------------
+
+fn mutate_id(rng: &mut Rng, id: &str) -> String {
+    let cs: Vec<char> = id.chars().collect();
+    match rng.below(7) {
+        0 => id.to_uppercase(),
+        1 => id.to_lowercase(),
+        2 => format!("{id} "),
+        3 => format!("{id}s"),
+        4 if !cs.is_empty() => cs[..cs.len() - 1].iter().collect(),
+        5 if !cs.is_empty() => {
+            let mut c = cs.clone();
+            let i = rng.below(c.len() as u64) as usize;
+            c[i] = *rng.pick(&['_', 'x', 'µ', 'Ω', '/', '2', '³', ' ']);
+            c.into_iter().collect()
+        }
+        _ => format!("_{id}"),
+    }
+}
+
+fn unit_charish(rng: &mut Rng) -> String {
+    let alphabet: Vec<char> = "abemEkWh_/%$°³²µΩ".chars().collect();
+    let n = 1 + rng.below(4);
+    (0..n).map(|_| *rng.pick(&alphabet)).collect()
+}
+
+/// number-like texts whose first token the outer lexer hands to `parse_number` (no `dddd-` / `dd:` openings)
+fn lex_text(rng: &mut Rng) -> Vec<u8> {
+    let units = all_units();
+    let mut s = String::new();
+    if rng.chance(1, 4) {
+        s.push('-');
+    }
+    // decimal
+    match rng.below(6) {
+        0 => s.push_str(&format!("{}", rng.below(100000))),
+        1 => s.push_str(&format!("{}.{}", rng.below(1000), rng.below(1000))),
+        2 => s.push_str(&format!("{}", rng.pick(&MAGNITUDES[..]).abs())),
+        3 => s.push_str(&format!("{}_{:03}", 1 + rng.below(999), rng.below(1000))),
+        4 => s.push_str(&format!("{}.", rng.below(100))),
+        _ => s.push_str(&format!("{}", rng.below(10))),
+    }
+    // exponent (digits only: Rust re-prints the exponent through f64)
+    match rng.below(8) {
+        0 => s.push_str(&format!("e{}", rng.below(30))),
+        1 => s.push_str(&format!("E+{}", rng.below(30))),
+        2 => s.push_str(&format!("e-{}", rng.below(30))),
+        3 => s.push_str(&format!("e{:02}", rng.below(30))),
+        _ => {}
+    }
+    // unit
+    match rng.below(8) {
+        0 => {}
+        1..=3 => {
+            let u: &&'static Unit = rng.pick(&units[..]);
+            s.push_str(u.symbol());
+        }
+        4 => {
+            let u: &'static Unit = *rng.pick(&units[..]);
+            let id: &String = rng.pick(&u.ids[..]);
+            s.push_str(id);
+        }
+        5 => {
+            let u: &'static Unit = *rng.pick(&units[..]);
+            let id: String = rng.pick(&u.ids[..]).clone();
+            s.push_str(&mutate_id(rng, &id));
+        }
+        6 => {
+            let t: &&str = rng.pick(&["e", "E", "e5", "E-", "e+", "em", "Em", "eV", "_m", "m_", "%", "$", "/h", "kW/", "Ee3", "ee"][..]);
+            s.push_str(t);
+        }
+        _ => s.push_str(&unit_charish(rng)),
+    }
+    // what follows the number
+    match rng.below(6) {
+        0 => s.push(','),
+        1 => s.push(' '),
+        2 => s.push_str("]"),
+        3 => s.push_str("\n"),
+        _ => {}
+    }
+    s.into_bytes()
+}
+
+pub fn generate(ctx: &mut Ctx) {
+    ctx.case("count", "-");
+    // exhaustive: every unit, all of its ids, all magnitudes, both codecs
+    let names: Vec<String> = all_units().iter().map(|u| u.name().to_string()).collect();
+    for n in names.iter() {
+        ctx.case("unit", &vx::h(n));
+    }
+    // strings that are (almost surely) no id
+    let n_non = ctx.n(3000, 150_000);
+    for _ in 0..n_non {
+        let mut rng = ctx.rng.fork();
+        let s = match rng.below(5) {
+            0 => gen::ident(&mut rng),
+            1 => gen::text(&mut rng),
+            2 => unit_charish(&mut rng),
+            _ => {
+                let u: &'static Unit = *rng.pick(&all_units()[..]);
+                let id: String = rng.pick(&u.ids[..]).clone();
+                mutate_id(&mut rng, &id)
+            }
+        };
+        ctx.case("nonid", &vx::h(&s));
+    }
+    // lexing correspondence
+    let n_lex = ctx.n(4000, 200_000);
+    for _ in 0..n_lex {
+        let mut rng = ctx.rng.fork();
+        let t = lex_text(&mut rng);
+        ctx.case("lex", &vx::hex(&t));
+    }
+}
